@@ -12,6 +12,10 @@ use std::ops::Index;
 #[verifier::accept_recursive_types(K)]
 #[verifier::accept_recursive_types(V)]
 pub struct HashMap<K, V> { _p: std::marker::PhantomData<(K, V)> }
+impl<K, V> HashMap<K, V> {
+    /// hashbrown::HashMap::new (only the const-value table of Context is built here)
+    #[verifier::external_body] pub fn new() -> HashMap<K, V> { unimplemented!() }
+}
 
 /// what `ToString::to_string` yields; for `&str` it is the string itself (assumed-dep: std)
 pub uninterp spec fn to_string_spec<T>(t: T) -> Seq<char>;
@@ -83,8 +87,15 @@ pub trait AstNode {
 pub mod asg {
     use vstd::prelude::*;
     #[verifier::external_body] pub struct Program { _p: u8 }
+    impl Program {
+        /// the statements of the program (ghost view of asg::Program, verified in unit SEMA)
+        pub uninterp spec fn n_stmts(&self) -> nat;
+        /// asg.rs Program::new: no version, no statements (verified in unit SEMA)
+        #[verifier::external_body] pub fn new() -> (r: Program) ensures r.n_stmts() == 0 { unimplemented!() }
+    }
     #[verifier::external_body] pub struct TExpr { _p: u8 }
     #[verifier::external_body] pub struct Annotation { _p: u8 }
+    impl Clone for Annotation { #[verifier::external_body] fn clone(&self) -> (r: Annotation) ensures r == *self { unimplemented!() } }
 }
 #[verifier::external_body] pub struct PathBuf { _p: u8 }
 impl SemanticErrorList {
